@@ -150,6 +150,9 @@ def norm(
     if isinstance(ord, Real) and np.isinf(ord):
         op = mg_max if ord > 0 else mg_min
         abs_ = absolute(x, constant=constant)
+        if not issubclass(abs_.dtype.type, np.floating):
+            # numpy.linalg.norm promotes integer/boolean input to float
+            abs_ = abs_.astype(float, constant=abs_.constant)
         out = op(abs_, axis=axis, keepdims=keepdims)
 
         in_ndim = abs_.ndim
